@@ -1337,12 +1337,17 @@ XPathProcessorImpl::UnaryExpr()
         isNeg = true;
     }
 
-    UnionExpr();
-
     if(isNeg == true)
     {
+        // UnaryExpr ::= UnionExpr | '-' UnaryExpr
+        UnaryExpr();
+
         m_expression->updateOpCodeLength(XPathExpression::eOP_NEG,
                                          opPos);
+    }
+    else
+    {
+        UnionExpr();
     }
 }
   
